@@ -526,10 +526,11 @@ pub fn run(ctx: &mut Ctx) {
         ctx.nontrivial(mix(&[5, idx as u64]));
     });
 
-    // ---- random histories on 2..4 voice engines
+    // ---- random histories on 1..4 voice engines
     let n = ctx.n(160, 20000);
     ctx.run_cases("weights-random", n, false, |ctx, rng, idx| {
-        let nv = rng.range(2, 4);
+        // (a single voice too: there the one weight vector [1.0] is the only acceptable one)
+        let nv = if idx % 5 == 2 { 1 } else { rng.range(2, 4) };
         let (e, d) = if idx % 10 == 0 {
             let mut voices = vec![bundled.clone()];
             for _ in 1..nv.min(2) {
